@@ -384,6 +384,35 @@ def falsify_colour(chk, R, terms=('xterm', 'xterm-256color', 'linux', 'vt100', '
     chk.coverage['colour'] = {'terms': list(terms), 'lines': tried, 'some_term_had_colour': seen_colour}
     return None, tried
 
+def falsify_stdout_encoding(chk, R):
+    """the real command line with stdout a pipe in several encodings: one line per problem whatever the encoding (printable
+    non-ASCII text of the file is kept by the escaper, so it must survive a legacy / ASCII stdout without aborting the run)"""
+    import e2e_common as E
+    rng = chk.rng
+    tried = 0
+    with E.Workdir() as wd:
+        files = []
+        for k in range(6 if chk.thorough else 3):
+            cat = G.base_catalog()
+            G.set_header(cat, 'Last-Translator', rng.choice(['Za\u017c\u00f3\u0142\u0107 G\u0119\u015bl\u0105', '\u0416\u0443\u043a <zhuk@localhost>', '\u4e2d\u6587 <a@b>', 'J\u00fcrgen']))
+            G.set_header(cat, 'Language-Team', rng.choice(['Polski \u2603', 'Deutsch <J\u00fcrgen@localhost>']))
+            cat['entries'].append({'flags': ['c-format'], 'msgid': '%s \u20ac', 'msgstr': '%d \u20ac\u00df'})
+            cat['entries'].append({'msgid': 'x\n', 'msgstr': '\u0105\U0001f600'})
+            files.append(os.path.relpath(wd.write(f'enc{k}/pl.po', G.render_po(cat)), wd.path))
+        ref = E.run_cli(files, wd.path, extra_env={'PYTHONIOENCODING': 'utf-8'})
+        nref = len(ref['stdout'].splitlines())
+        for enc in ('ascii', 'latin-1', 'iso-8859-2', 'cp1252', 'utf-8:strict', 'ascii:strict', 'koi8-r'):
+            r = E.run_cli(files, wd.path, extra_env={'PYTHONIOENCODING': enc, 'LC_ALL': 'C'})
+            tried += 1
+            n = len(r['stdout'].splitlines())
+            if r['rc'] != 0 or r['stderr'] or n != nref or ref['rc'] != 0:
+                content = open(os.path.join(wd.path, files[0]), encoding='utf-8').read()
+                return {'kind': 'stdout-encoding', 'input': f'PYTHONIOENCODING={enc}, stdout piped, {len(files)} files', 'file_content': content,
+                        'observed': f'rc={r["rc"]}, {n} lines, stderr: {r["stderr"][-400:]}', 'expected': f'rc=0, {nref} lines (as with UTF-8), empty stderr',
+                        'replay': f'PYTHONIOENCODING={enc} {common.PY} {common.REPO}/i18nspector pl.po | cat'}, tried
+    chk.coverage['stdout_encodings'] = {'runs': tried, 'lines_per_run': nref}
+    return None, tried
+
 def falsify_character_names(chk, R):
     """rule `unicodeName` of the site classifier: encinfo.get_character_name answers clean ASCII for every code point"""
     from lib import encodings as encinfo
@@ -574,6 +603,20 @@ def taint_stream(chk, R, nfiles, sites):
         open(os.path.join(tmp, 'x.txt'), 'w').write('x')
         jobs.append((os.path.join(tmp, 'x.txt'), 'txt', ['path'], 'all'))
         jobs.append((os.path.join(tmp, 'missing.po'), 'missing', ['path'], 'all'))
+        # files polib refuses: the marker in every position of a line that a syntax-error message can quote
+        good = G.render_po(G.base_catalog())
+        k = 0
+        for mk in sorted(G.MARKERS):
+            m = G.MARKERS[mk].replace('\n', ' ')
+            tok = m.replace(' ', '').replace('\t', '') or 'x'
+            for shape in ('#| {t}msgid "x"\nmsgid "a"\nmsgstr "b"\n', '#| {t} "x"\nmsgid "a"\nmsgstr "b"\n', '#| msgid{t} "x" y\nmsgid "a"\nmsgstr "b"\n',
+                          '#~| {t} "x"\n#~ msgid "a"\n#~ msgstr "b"\n', '#~ {t} "x"\n', '{t} "x"\n', 'msgid "a"\n{t}\n', 'msgid "a{m}\nmsgstr ""\n',
+                          'msgid "a" {m}\nmsgstr ""\n', 'msgid "a"\nmsgstr[{t}] "x"\n', 'msgid "a"\nmsgstr "b" "c{m}\n', 'msgid "a"\n"b"{t}\nmsgstr ""\n',
+                          'msgctxt {t}\nmsgid "a"\nmsgstr ""\n', 'msgid "a"\nmsgid_plural {t}\nmsgstr[0] ""\n', 'domain {t}\n'):
+                k += 1
+                pth = os.path.join(tmp, f'syn{k}.po')
+                open(pth, 'wb').write((good + '\n' + shape.format(t=tok, m=m)).encode('utf-8', 'surrogateescape'))
+                jobs.append((pth, 'po-syntax', ['syntax-error line'], mk))
         while len(jobs) < nfiles:
             mk = rng.choice(sorted(G.MARKERS))
             cat, used = G.tainted_catalog(rng, mk)
